@@ -2,6 +2,11 @@
 //!
 //! Script:
 //!   case <id> bitrate=<bit/s> lat=<ns> jit=<ns> drop=<drop|qinf|q<bytes>> seed=<n>
+//!       optional `tmpl=1`: the link under test is not wired at build time; in `at_sim_start` the sender first
+//!       sends a 64-byte dummy over an auxiliary link `a.aux --> b.aux` with the same metrics (busy at once with a
+//!       finite bitrate) and then connects `a.out --> b.in` handing `Gate::connect` the *auxiliary link's channel*
+//!       as the template — `connect` gives a link its own channel instances with that configuration, so the link
+//!       under test must behave exactly like one built from fresh metrics (idle, empty queue)
 //!   h <gap> <e|l|s> <tag>:<bodylen> <tag>:<bodylen> …
 //!       one handler of the sending module, `gap` ns after the previous handler (the first one
 //!       relative to t=0); inside it the listed messages are sent with `send(..)` back to back
@@ -30,6 +35,7 @@ use std::fmt::Write;
 use std::sync::{Arc, Mutex};
 
 const WAKE: u16 = 77;
+const DUMMY: u16 = 78;
 
 #[derive(Clone, Debug)]
 struct Pay {
@@ -102,6 +108,11 @@ struct Sender {
     lines: Vec<HLine>,
 }
 
+thread_local! {
+    /// `tmpl=1`: the far end of the link under test, wired in `at_sim_start` from a busy template channel
+    static PEER: std::cell::RefCell<Option<GateRef>> = const { std::cell::RefCell::new(None) };
+}
+
 impl Sender {
     fn schedule(&self, idx: usize) {
         if let Some(l) = self.lines.get(idx) {
@@ -152,6 +163,11 @@ impl Sender {
 
 impl Module for Sender {
     fn at_sim_start(&mut self, _stage: usize) {
+        if let Some(peer) = PEER.with(|p| p.borrow_mut().take()) {
+            send(Message::default().kind(DUMMY), "aux");
+            let template = current().gate("aux", 0).unwrap().channel().unwrap();
+            current().gate("out", 0).unwrap().connect(peer, Some(template));
+        }
         let ch = current().gate("out", 0).unwrap().channel().unwrap();
         ch.attach_probe(Probe(self.sh.clone()));
         self.sh.lock().unwrap().chan = Some(ch);
@@ -176,6 +192,9 @@ struct Receiver {
 
 impl Module for Receiver {
     fn handle_message(&mut self, msg: Message) {
+        if msg.header().kind == DUMMY {
+            return;
+        }
         let tag = msg.try_content::<Pay>().map(|p| p.tag).unwrap_or(u64::MAX);
         let mut sh = self.sh.lock().unwrap();
         let t = now_ns();
@@ -229,6 +248,7 @@ pub fn exec(input: &str) -> String {
         let jit: u64 = hval(&header, "jit").and_then(|v| v.parse().ok()).unwrap_or(0);
         let seed: u64 = hval(&header, "seed").and_then(|v| v.parse().ok()).unwrap_or(1);
         let drop = parse_drop(&hval(&header, "drop").unwrap_or_else(|| "drop".into()));
+        let tmpl = hval(&header, "tmpl").as_deref() == Some("1");
         writeln!(out, "{header}").unwrap();
 
         let lines: Vec<HLine> = body.iter().filter_map(|l| parse_hline(l)).collect();
@@ -254,7 +274,14 @@ pub fn exec(input: &str) -> String {
                 Duration::from_nanos(jit),
                 drop,
             ));
-            g_out.connect(g_in, Some(channel));
+            if tmpl {
+                let a_aux = sim.gate("a", "aux");
+                let b_aux = sim.gate("b", "aux");
+                a_aux.connect(b_aux, Some(channel));
+                PEER.with(|p| *p.borrow_mut() = Some(g_in));
+            } else {
+                g_out.connect(g_in, Some(channel));
+            }
             let rt = Builder::seeded(seed)
                 .quiet()
                 .cqueue_options(64, Duration::from_nanos(width))
